@@ -333,3 +333,12 @@ def _dataset_case(name, nmax, tol, max_iter):
 
 
 DATASET_CASES = [_dataset_case("intel", 400, 1e-4, 8), _dataset_case("garage", 300, 1e-4, 8), _dataset_case("intel", 150, 1e-2, 4), _dataset_case("garage", 100, 0.0, 3)]
+
+
+def extra_stage(tier, seed, tmp):
+    """thorough tier: the repository's own test-suite as a workload under this property's monitors (every Graph.optimize / Graph.from_g2o call)."""
+    if tier != "thorough":
+        return None
+    from ..runner import suite_under_monitors
+
+    return suite_under_monitors("C12", seed, tmp)
